@@ -243,6 +243,21 @@ class Compiler:
             label=label, operands=operands, try_depth=len(self.try_stack)
         )
 
+    def _compile_finalizer_with_pending_exception(self, finalizer: Node) -> None:
+        """Compile a finally block that runs while the exception to rethrow is on the stack.
+
+        A break or continue inside it discards that exception (and must pop it).
+        """
+        pending = LoopContext(
+            label="<pending exception>",  # never the target of a break or continue
+            is_loop=False,
+            operands=1,
+            try_depth=len(self.try_stack),
+        )
+        self.loop_stack.append(pending)
+        self._compile_statement(finalizer)
+        self.loop_stack.pop()
+
     def _emit_exit_cleanup(self, target_index: int, pop_operands: bool = True) -> None:
         """Emit what leaving the constructs nested inside loop_stack[target_index] requires.
 
@@ -813,7 +828,7 @@ class Compiler:
                     jump_after_catch = self._emit_jump(OpCode.JUMP)
                     self._patch_jump(catch_guard)
                     self.try_stack.pop()
-                    self._compile_statement(node.finalizer)
+                    self._compile_finalizer_with_pending_exception(node.finalizer)
                     self._emit(OpCode.THROW)  # Rethrow the exception
                     self._patch_jump(jump_after_catch)
                 else:
@@ -825,7 +840,7 @@ class Compiler:
                 # Run finally then rethrow
                 self.try_stack.pop()
                 if node.finalizer:
-                    self._compile_statement(node.finalizer)
+                    self._compile_finalizer_with_pending_exception(node.finalizer)
                 self._emit(OpCode.THROW)  # Rethrow the exception
 
             # Normal finally block (after try completes normally or after catch)
